@@ -150,7 +150,9 @@ Proof. exact t_three_facts. Qed.
    and its len() walks no other name, so it measures Len(OPT) wherever it stands;
    [next_dropped m size] = the message Truncate leaves with one more record, the
    first one it dropped, put back in its place (None when nothing was dropped). *)
-From Dns Require Import Proofs.TruncateTightProofs.
+From Dns Require Import Proofs.LenRRProofs Proofs.LenCompressProofs Proofs.TruncateTightProofs.
+Open Scope list_scope.
+Open Scope N_scope.
 
 (* the counting form on truncateLoop: with j records kept, the running length
    after each of the first j - 1 was strictly below size, and exactly one of
@@ -222,22 +224,63 @@ Theorem no_first_dropped_record_only_if_nothing_dropped :
 Proof. exact next_dropped_none. Qed.
 Print Assumptions no_first_dropped_record_only_if_nothing_dropped.
 
-(* ... and on the packed octets.  PARTIAL: C08 proves Len() = len(Pack()) for
-   plain messages packed WITHOUT compression and Len() >= len(Pack()) with it;
-   the message here is packed WITH compression, so exactness of Len() for it is
-   the named hypothesis [len_exact_compressed m'] :=
-     forall w, pack_msg m' = Ok w -> lenN w = msg_len m'
-   (instances below).  Full clause: the same with [len_exact_compressed m']
-   replaced by: m' consists of escape-free records of the common types (plus the
-   OPT).  Missing: the converse of C08's joint invariant (every key of the
-   packer's map is a suffix in the length walk's set, equal offsets) *)
-Theorem first_dropped_record_would_not_have_fitted_when_packed_partial :
+(* ---- Len() is exact WITH compression (C08 proves exactness without, and
+   Len() >= len(Pack()) with) ----
+   [q_plain], [rr_plain], [msg_okb]: see Props/C08.v.
+   [kind_cexact k]: the pack() and len() sequences of kind k align exactly (as
+   C08's kind_exact) and, besides, no constant counted by len() is still
+   unwritten when a name is reached, so the name is measured at the offset it is
+   written at; [rr_cplain r] = rr_plain r && kind_cexact (rr_kind r);
+   [opt_plain r]: an OPT record owned by the root whose options have the length
+   their own len() reports; [rr_cok r] = rr_cplain r || opt_plain r;
+   [msg_cplain m]: escape-free non-empty question names and every record rr_cok.
+   The invariant behind it: the packer's compression map and the length walk's
+   suffix set hold the same keys, at equal offsets (C08 has one inclusion). *)
+Theorem the_sixteen_common_kinds_are_exact_with_compression : forallb kind_cexact exact_kinds = true.
+Proof. exact exact_kinds_cexact. Qed.
+Print Assumptions the_sixteen_common_kinds_are_exact_with_compression.
+
+(* one escape-free, non-empty name, packed and measured at the same offset with
+   equal key sets [Je cm ls P]: domainNameLen is exactly what packDomainName
+   writes, and the key sets stay equal *)
+Theorem compressed_name_len_is_exact :
+  forall (s : bytes) (cap : N) (cp : bool) (st : pn_state) (cm : cmap) (ls : lset) (n : N)
+         (c' : option lset) (st' : pn_state),
+    has_backslash s = false -> s <> [] -> pn_cm st = Some cm -> Je cm ls (poff st) ->
+    pack_name s cap cp st = Ok st' ->
+    domain_name_len s (poff st) (Some ls) cp = (n, c') ->
+    exists cm' ls', pn_cm st' = Some cm' /\ c' = Some ls' /\ poff st' = poff st + n /\ Je cm' ls' (poff st').
+Proof. exact name_joint_eq. Qed.
+Print Assumptions compressed_name_len_is_exact.
+
+Theorem msg_len_is_exact_with_compression :
+  forall (m : msg) (w : bytes),
+    msg_cplain m = true -> msg_okb m = true -> msg_compress m = true -> pack_msg m = Ok w ->
+    lenN w = msg_len m.
+Proof. exact msg_len_exact_compressed. Qed.
+Print Assumptions msg_len_is_exact_with_compression.
+
+(* the clause of C09 on the packed octets: for an escape-free message of the
+   common types, the records Truncate kept, the first record it dropped and the
+   OPT record do not pack into max(size, 512) octets *)
+Theorem first_dropped_record_would_not_have_fitted_when_packed :
+  forall (m : msg) (size : Z) (m' : msg) (w : bytes),
+    has_tsig m = false -> set_aside_exact m = true -> msg_cplain m = true -> msg_okb m = true ->
+    next_dropped m size = Some m' -> pack_msg m' = Ok w ->
+    (trunc_size size < Z.of_N (lenN w))%Z.
+Proof. exact first_dropped_does_not_fit_packed_plain. Qed.
+Print Assumptions first_dropped_record_would_not_have_fitted_when_packed.
+
+(* the same for any message, given exactness of Len() for the message with the
+   first dropped record: [len_exact_compressed m'] :=
+     forall w, pack_msg m' = Ok w -> lenN w = msg_len m' *)
+Theorem first_dropped_record_would_not_have_fitted_when_packed_given_exactness :
   forall (m : msg) (size : Z) (m' : msg) (w : bytes),
     has_tsig m = false -> set_aside_exact m = true -> next_dropped m size = Some m' ->
     len_exact_compressed m' -> pack_msg m' = Ok w ->
     (trunc_size size < Z.of_N (lenN w))%Z.
 Proof. exact first_dropped_does_not_fit_packed. Qed.
-Print Assumptions first_dropped_record_would_not_have_fitted_when_packed_partial.
+Print Assumptions first_dropped_record_would_not_have_fitted_when_packed_given_exactness.
 
 (* the hypothesis on the OPT cannot be dropped: an OPT record owned by
    example.org. is budgeted at its uncompressed Len (23) but takes 12 octets;
@@ -290,3 +333,21 @@ Example ex_exact_stop :
 Proof. exact t_exact_facts. Qed.
 Example ex_len_exact_compressed_instance2 : len_exact_compressed t_exact_next.
 Proof. exact t_exact_next_exact. Qed.
+(* the hypotheses of the packed form are satisfiable: they hold of the two
+   messages above, and of a reply whose names share suffixes all over (MX, SRV,
+   NS, A, TXT, OPT with padding): Len() = len(Pack()) = 639 with compression
+   against 791 without; Truncate(512) drops only the last TXT record and leaves
+   422 octets; with that record back the message packs to 639 > 512 *)
+Example ex_plain_hypotheses :
+  msg_cplain t_three = true /\ msg_okb t_three = true /\ msg_cplain t_exact = true /\ msg_okb t_exact = true.
+Proof. exact t_three_plain. Qed.
+Example ex_mixed_reply :
+  has_tsig t_mixed = false /\ set_aside_exact t_mixed = true /\ msg_cplain t_mixed = true /\ msg_okb t_mixed = true /\
+  msg_compress t_mixed = true /\ msg_len t_mixed = 639 /\ msg_len_with t_mixed None = 791 /\
+  packed_len t_mixed = Some 639 /\
+  msg_len (truncate t_mixed 512) = 422 /\ packed_len (truncate t_mixed 512) = Some 422 /\
+  length (m_answer (truncate t_mixed 512)) = 3%nat /\ length (m_ns (truncate t_mixed 512)) = 2%nat /\
+  length (m_extra (truncate t_mixed 512)) = 4%nat /\
+  next_dropped t_mixed 512 = Some t_mixed_next /\ length (m_extra t_mixed_next) = 5%nat /\
+  msg_len t_mixed_next = 639 /\ packed_len t_mixed_next = Some 639.
+Proof. exact t_mixed_facts. Qed.
